@@ -68,6 +68,13 @@ CHECKS = {
             "matcher with back-references says which mutants conform to no template. Held on the executions produced.",
             "the 'must be untyped' clause is judged only where R8 classifies the mutant; 'typed => path(c) == p' on every path.",
             "runtime monitor on Sid(path=) over mutated paths + reference path conformance model"),
+    "C11": ("exploration", "3 C11",
+            "one generated universe is materialised (own renderer) as list, local tree and server tree; every generated search runs on "
+            "FindInList, FindInPaths(local/server) and FindInAll and is compared with the expected sets (typed glob match over the existing "
+            "entities; R7 constants model for FindInAll) and across finders, then again after planting junk that R8 proves non-conforming: "
+            "no change, no exception. Held on the executions produced.",
+            "unfolded forms are observed from the real unfold_search; '>' searches are cross-compared here and judged against R6 in C09.",
+            "differential runtime monitoring across finders + existence reference model + junk fault injection"),
 }
 
 NOT_YET = {}
